@@ -599,6 +599,12 @@ def float_cases():
 def fround(v):
     return z3.fpToFP(z3.RNE(), z3.fpToFP(z3.RNE(), v, F32), F64)
 
+def is_fround(r):
+    try:
+        return z3.is_app(r) and r.decl().kind() == z3.Z3_OP_FPA_TO_FP and r.num_args() == 2 and z3.is_fp(r.arg(1)) and r.arg(1).sort() == F32
+    except Exception:
+        return False
+
 def fsem(t, env):
     k = t[0]
     if k == 'var': return env[t[1]]
@@ -654,7 +660,8 @@ def _verify_float_case(self, case, fn):
                 self.oblige(state, 'value', r == want)
             else:
                 self.oblige(state, 'value', z3.Or(z3.And(z3.fpIsNaN(r), z3.fpIsNaN(want)), r == want))
-                if case.ret == 'float32':
+                if case.ret == 'float32' and not is_fround(r):
+                    # (a value that is syntactically fround(t) is single precision by construction)
                     self.oblige(state, 'single-precision result', z3.Or(z3.fpIsNaN(r), r == fround(r)))
         elif how == 'panic':
             self.oblige(state, 'no-panic(%s)' % info, z3.BoolVal(False))
